@@ -34,7 +34,10 @@ invocation of `./check` rebuilds from /repo's working tree.
 * **Explorer A** (`explore/`, `props/c01…c17.go`): named finite spaces, item =
   expression (or document, or token-prefix), sharded over 16 worker
   subprocesses, merged; a crashed worker is attributed to the item it was
-  running and re-run 3x in isolation. An expression is compiled once and
+  running and re-run 3x in isolation; a worker that stays on one item beyond
+  the item timeout is killed and the item re-run alone twice (`hang`
+  violation, or — if it finishes alone — the shard is simply run again); both
+  give replayable `item` cases. An expression is compiled once and
   evaluated on all documents and contexts; a mismatch is re-run on a fresh
   compile, and if it only shows on the re-used expression it is stored as a
   *history* case (`evalhist`: compile once, replay the preceding evaluations,
@@ -55,7 +58,10 @@ invocation of `./check` rebuilds from /repo's working tree.
   every execution. Expectations ("what the call observes alone") are computed
   lazily *after* the first concurrent run, and the free-running `-race` pass
   starts every scenario in a fresh process, so that the first run meets cold
-  package state.
+  package state. An execution that passes 400 000 scheduling points is
+  unwound ("did not terminate" is then an observed outcome, class `hang`), and
+  every free-running `-race` process has a 3 min (thorough 10 min) limit, so
+  that code which spins under concurrency yields a verdict, not a stuck check.
 * **Explorer D** (`props/c06.go`): nesting units x outer contexts, each case in
   a child process with `debug.SetMaxStack(64 MiB)`; stack overflow, crash and
   hang (60 s for <= 1000 levels, 300 s above) are the observations.
